@@ -339,8 +339,14 @@ class ClientGenerator:
             # --- End Refactored Diff Logic ---
         else:  # This is the force=True or first-run logic
             self._log_progress("Direct generation (force=True or first run)", "DIRECT_GEN")
+            # A core package inside this client's directory may be shared with other clients: carry its
+            # exception registry over the cleanup, so that their exception classes are emitted again
+            registry_path = core_dir / ".exception_registry.json"
+            saved_registry = None
             if out_dir.exists():
                 self._log_progress(f"Removing existing directory: {out_dir}", "CLEANUP")
+                if out_dir in core_dir.parents and registry_path.exists():
+                    saved_registry = registry_path.read_bytes()
                 shutil.rmtree(str(out_dir))
             # Ensure parent dirs exist before creating final output dir
             self._log_progress(f"Creating directory structure", "SETUP_DIRS")
@@ -351,6 +357,8 @@ class ClientGenerator:
             if core_dir != out_dir:
                 core_dir.parent.mkdir(parents=True, exist_ok=True)
                 core_dir.mkdir(parents=True, exist_ok=True)  # Create final core dir
+            if saved_registry is not None:
+                registry_path.write_bytes(saved_registry)
 
             # Write root __init__.py if needed (handle nested packages like a.b.c)
             self._log_progress("Creating __init__.py files for package structure", "INIT_FILES")
